@@ -540,3 +540,8 @@ fn uses_list_visitor__only_in_list_comparisons() {
     std::mem::forget(s);
 }
 
+// NOT REGISTERED (measured): "UsesListVisitor descends through a comparison that is not
+// `in $list`" (`f(x in $l) == 1`).  Running the real recursion on that 4-node AST did not
+// finish in 15 min (unfolded enum tags make every walk explore every arm, recursively), and
+// Kani 0.68 cannot stub a generic trait method (`<ComparisonExpr as Expr>::walk`), so the
+// modular formulation is not available either.  Listed under `unverified` in C12.toml.
